@@ -705,8 +705,7 @@ Proof.
   intros H1 H2 Hi. unfold strides_of. destruct stride as [t|]; cbn [option_map].
   - rewrite (nth_indep _ None (Some 0)) by (rewrite map_length; lia).
     apply (map_nth Some t 0 i).
-  - rewrite (nth_indep _ None ((fun _ : Z => @None Z) 0)) by (rewrite map_length; lia).
-    apply (map_nth (fun _ : Z => @None Z) cn 0 i).
+  - clear. revert i. induction cn as [|c cn IH]; intros i; destruct i; cbn [map nth]; auto.
 Qed.
 
 Lemma starts_ok_b_nth fmt strict isrec isread shape numrecs st count stride :
